@@ -140,6 +140,14 @@ CHECKS = {
              "load_datasets; the oracle is the role and type tables parsed from docs/data_structures.rst. Finite domain, 'Confirmed over all paths' required.",
         note="Stub: jsonschema validation skipped while tracing (run un-stubbed in the concrete warm-up). pysdmx objects are built outside tracing. run_sdmx() end-to-end is outside (parser).",
         ref="3 C27"),
+    "C09": dict(technique="bounded SMT (z3) equivalence between the cast SQL regenerated from the real transpiler (+ the real conversion macros over a calendar theory) and the documented conversion rules over symbolic tables, models replayed through run(); CrossHair over the real Cast.validate for the 8x8 type table",
+        engine="sqlsmt", ref="3 C09", category="model_checking",
+        note="Partial. String sources (DuckDB's C++ string parsers), Duration, masks and the text of Number/Date renderings are outside; Number -> Integer is taken as truncation toward zero (VTL 2.2). "
+             "Trusted: sqlglot + vt/sqlsmt semantics incl. the exact BIGINT->DOUBLE rounding model and cal.py (self-checked against real DuckDB per template), the RST table parser, CrossHair, z3.",
+        text="(a) The real Cast.validate at scalar, component and dataset level accepts a (source, target) pair exactly when docs/data_types.rst lists it, and names the result measure as documented - CrossHair over symbolic type "
+             "indices, all 8x8 pairs. (b) For ~90 templates the SQL emitted for cast() is evaluated over ALL tables of 2 datapoints: Integer/Number/Boolean conversions with Integer inputs over the whole int64 range "
+             "(value preserved, 0 <-> false, truncation), string renderings (which value is rendered), Date -> Time_Period, Time_Period -> Date, Time -> Date and Time -> Time_Period for every date / period / "
+             "interval of the year range (sharded by indicator and interval shape), including the converted value being used inside the script; runtime errors exactly where no conversion exists."),
     "C32": dict(technique="bounded SMT (z3) reachability of every runtime-error site of the SQL regenerated from the real transpiler (error() calls of the macros, DuckDB kernel domain errors, BIGINT overflow) over symbolic tables; each witness is executed by the real run() and the escaping exception classified",
         engine="sqlsmt", ref="3 C32", category="model_checking",
         note="Partial. Trusted: the evaluator's error-event model (self-checked per template against real DuckDB, incl. extreme integers; events over-approximate because DuckDB evaluates projections lazily - every reachable site is confirmed on the real engine), z3. "
